@@ -68,14 +68,32 @@ func verifFlushConns() {
 // is received or counted: endpoint absent (no spool) => conn_down_no_spool; healthy => received in order
 // or slow_conn; black-holing => hand-off still returns, overflow counted as slow_conn.
 func VerifC06Steady() {
-	behaviour := verifChoice("endpoint", 4) // 0 absent, 1 healthy, 2 accepts but never reads, 3 like 2 and then closes mid-stream
+	behaviour := verifChoice("endpoint", 5) // 0 absent, 1 healthy, 2 accepts but never reads, 3 like 2 and then closes mid-stream, 4 absent at first, then healthy
+	if p := verifParam("endpoint"); p != "" { // restrict the scenario (used by the bounded-preemption obligations)
+		verifAssume(behaviour == int(p[0]-'0'))
+	}
 	connBuf := 1 + verifChoice("connbuf", 2)
+	if p := verifParam("connbuf"); p != "" {
+		verifAssume(connBuf == int(p[0]-'0'))
+	}
 	d := verifNewDest(false, connBuf, 4)
-	if behaviour != 0 {
+	if behaviour != 0 && behaviour != 4 {
 		verifEndpointUp(true)
 	}
 	d.Run()
 	verifSettle()
+	if behaviour == 4 {
+		// the first connection attempt was refused; a line handed off meanwhile is counted; then the endpoint
+		// comes up and the periodic reconnect finds it: from then on this is the healthy steady state
+		d0 := d.numDropNoConnNoSpool.Count()
+		d.In <- []byte("early 1 1")
+		verifSettle()
+		verifAssert(d.numDropNoConnNoSpool.Count()-d0 == 1, "absent-endpoint-every-line-counted-conn-down")
+		verifEndpointUp(true)
+		verifTick(verifReconnTicker())
+		verifSettle()
+		behaviour = 1 // (that it reconnected shows in the healthy assertions below: no conn-down drops any more)
+	}
 	if behaviour >= 2 {
 		verifEndpointStall(0, true)
 	}
@@ -87,6 +105,9 @@ func VerifC06Steady() {
 		}
 	}
 	n := 2 + verifChoice("nlines", 3)
+	if p := verifParam("nlines"); p != "" {
+		verifAssume(n == int(p[0]-'0'))
+	}
 	if behaviour == 2 {
 		n = 6 // enough to overflow iobuf + the line in the writer's hands + connbuf more than once
 	}
